@@ -2,7 +2,7 @@
    Only ExtrOcamlBasic: bool, option, unit, list, prod, sumbool, sumor map to OCaml's own types
    and andb/orb are inlined; Z, positive, N, nat stay the extracted inductive types. *)
 Require Import ExtrOcamlBasic.
-Require Import RQ.Base RQ.F32 RQ.Rect RQ.Pixel RQ.Surface RQ.Raster RQ.PathF RQ.PathOps RQ.Contains RQ.PixelFormat RQ.Shader RQ.Target.
+Require Import RQ.Base RQ.F32 RQ.Rect RQ.Pixel RQ.Surface RQ.Raster RQ.PathF RQ.PathOps RQ.Contains RQ.PixelFormat RQ.Shader RQ.Target RQ.PathShape.
 Extraction Language OCaml.
 Separate Extraction
   Base.wrap32 Base.wrapu32 Base.zrange
@@ -14,5 +14,6 @@ Separate Extraction
   Raster.rast_idle Shader.new_linear_gradient Shader.new_radial_gradient Shader.new_two_circle_radial_gradient Shader.new_sweep_gradient
   PathOps.contains_point_flat PathOps.flatten PathOps.dash_path PathOps.stroke_to_path PathOps.builder_rect PathOps.path_transform PathOps.curve_starts
   Contains.contains_Z Contains.contains_spec
+  PathShape.b_run PathShape.b_new
   PixelFormat.to_u32 PixelFormat.from_unpremultiplied_argb PixelFormat.byte_view PixelFormat.set_byte PixelFormat.from_vec PixelFormat.png_bytes PixelFormat.word_bytes
   Target.dt_new Target.step_op Target.clip_bounds Target.top_clip_mask Target.probe_region Target.step_forced Target.dest_of.
